@@ -179,10 +179,13 @@ def main():
         detect(sys.argv[2], tier, sys.argv[4:] or None)
     elif cmd == 'all':
         tier = sys.argv[2] if len(sys.argv) > 2 else 'quick'
-        path = os.path.join(SEEDED, 'results.json')
-        results = json.load(open(path)) if os.path.exists(path) else {}
+        prefixes = tuple(sys.argv[3:])      # optional: only the changes whose names start with one of these (e.g. C01 C02)
+        path = os.path.join(SEEDED, 'results.json' if not prefixes else 'results-%s.json' % '-'.join(prefixes))
+        results = json.load(open(path)) if os.path.exists(path) and not prefixes else {}
         for name in sorted(os.listdir(SEEDED)):
             if not os.path.isdir(os.path.join(SEEDED, name)):
+                continue
+            if prefixes and not name.startswith(prefixes):
                 continue
             try:
                 r = detect(name, tier, SIBLINGS.get(name))
